@@ -22,6 +22,7 @@ TAction(ev) ==
     [] ev.a = "Delete"     -> Delete(g.p, g.slot, g.t, g.by)
     [] ev.a = "AddLink"    -> AddLink(g.p, g.slot, g.t, g.by)
     [] ev.a = "RemoveLink" -> RemoveLink(g.p, g.slot, g.t, g.by)
+    [] ev.a = "SetLinks"   -> SetLinks(g.p, g.slot, ev.out)
     [] ev.a = "SetOne"     -> SetOne(g.p, g.slot, g.t)
     [] ev.a = "SetAttr"    -> SetAttr(g.p, g.v)
     [] ev.a = "SetType"    -> SetType(g.p, g.n)
